@@ -104,6 +104,7 @@ theorem wf : K.WFS 4 where
   arr_disj := (K.arrOK_of_none (fun _ => rfl)).arr_disj
   arr_code := (K.arrOK_of_none (fun _ => rfl)).arr_code
   loc_na := (K.arrOK_of_none (fun _ => rfl)).loc_na
+  str := K.strOK_of_none rfl
 
 def σ : X.St :=
   { gvars := [("g", some 5)], arrays := #[], locals := [], io := Isa.IOSt.init [], calls := [], steps := 0, depth := 0 }
@@ -174,6 +175,7 @@ theorem rep : Rep K σ mem where
       rw [h2] at h
       simp at h
   acells := by intro id cells h; simp [σ] at h
+  strs := by intro l bs ws j k h; simp [K] at h
 
 /-- `g := g + 1`. -/
 def stmt : X.Stmt := .assign "g" (.bin .plus (.name "g") (.num 1))
